@@ -114,7 +114,7 @@ def emit(modname, payloads, repr_, dspec, mode):
     if multi:
         covers.append('different variants')
     if mode in ('ord', 'ordonly'):
-        call = 'let r = Ord::cmp(&wa.e, &wb.e);\n    assert!(wa.e.partial_cmp(&wb.e) == Some(r), "partial_cmp != Some(cmp)");'
+        call = 'let r = Ord::cmp(&wa.e, &wb.e);\n    assert!(PartialOrd::partial_cmp(&wa.e, &wb.e) == Some(r), "partial_cmp != Some(cmp)");'
     else:
         call = 'let r = match PartialOrd::partial_cmp(&wa.e, &wb.e) { Some(r) => r, None => { assert!(false, "partial_cmp returned None for comparable payloads"); Ordering::Equal } };'
     h = Harness('h_order', covers=covers)
@@ -131,6 +131,7 @@ def emit(modname, payloads, repr_, dspec, mode):
     let wb = Wrap {{ e: b, tail: Sym::sym() }};
     {call}
     assert!(r == o, "enum ordering differs from declared-discriminant oracle");
+    assert!(PartialOrd::partial_cmp(&wa.e, &wa.e) == Some(oracle_cmp(&wa.e, &wa.e)), "comparison with the same object differs from the oracle");
 }}
 '''
     cfgid = f'enum[{",".join(payloads)}]/repr={repr_}/disc={[disc_text(d) if d is not None else None for d in dspec] if dspec else None}/{mode}'
